@@ -324,10 +324,11 @@ func (l *listener) Listen() error {
 	var err error
 	var tcfg *tls.Config
 
+	// The lock is held throughout: Close either comes first, and we
+	// refuse, or finds the listener it has to close.
 	l.lock.Lock()
-	closed := l.closed
-	l.lock.Unlock()
-	if closed {
+	defer l.lock.Unlock()
+	if l.closed {
 		return mangos.ErrClosed
 	}
 	if l.noserve {
@@ -336,9 +337,7 @@ func (l *listener) Listen() error {
 		return nil
 	}
 	if l.iswss {
-		l.lock.Lock()
 		v, ok := l.opts[mangos.OptionTLSConfig]
-		l.lock.Unlock()
 		if !ok || v == nil {
 			return mangos.ErrTLSNoConfig
 		}
@@ -366,20 +365,20 @@ func (l *listener) Listen() error {
 	} else {
 		l.listener = tlist
 	}
-	l.lock.Lock()
 	l.pending = nil
 	l.running = true
-	l.lock.Unlock()
 	l.bound = l.listener.Addr().(*net.TCPAddr)
 	if taddr.Port == 0 {
 		// Only now is there a bound address for Address() to report.
 		l.anon = true
 	}
 
-	l.htsvr = &http.Server{Addr: l.url.Host, Handler: l.mux}
+	srv := &http.Server{Addr: l.url.Host, Handler: l.mux}
+	nl := l.listener
+	l.htsvr = srv
 
 	go func() {
-		_ = l.htsvr.Serve(l.listener)
+		_ = srv.Serve(nl)
 	}()
 
 	return nil
@@ -490,9 +489,12 @@ func (l *listener) ServeHTTP(w http.ResponseWriter, r *http.Request) {
 }
 
 func (l *listener) Address() string {
-	if l.anon {
+	l.lock.Lock()
+	anon, bound := l.anon, l.bound
+	l.lock.Unlock()
+	if anon {
 		u := *l.url // a copy: the listener's URL is shared by every caller
-		u.Host = fmt.Sprintf("%s:%d", u.Hostname(), l.bound.Port)
+		u.Host = fmt.Sprintf("%s:%d", u.Hostname(), bound.Port)
 		return u.String()
 	}
 	return l.url.String()
